@@ -198,8 +198,8 @@ def gen_entity(rng, vmf, features, vis_ids: List[int], group_ids: List[int], bru
         features['brush'] = features.get('brush', 0) + 1
     ent = Entity(
         vmf, keys=keys, fixup=fix, outputs=outs, solids=solids, hidden=rng.random() < 0.2,
-        groups=rng.sample(group_ids, rng.randint(0, min(2, len(group_ids)))) if group_ids else (),
-        vis_ids=rng.sample(vis_ids, rng.randint(0, min(2, len(vis_ids)))) if vis_ids else (),
+        groups=rng.sample(group_ids, rng.randint(0, min(3, len(group_ids)))) if group_ids else (),
+        vis_ids=rng.sample(vis_ids, rng.randint(0, min(3, len(vis_ids)))) if vis_ids else (),
         vis_shown=rng.random() < 0.8, vis_auto_shown=rng.random() < 0.8,
         logical_pos=f'[{rng.randrange(0, 5000)} {rng.randrange(0, 5000)}]' if rng.random() < 0.5 else None,
         editor_color=(rng.randrange(256), rng.randrange(256), rng.randrange(256)),
@@ -227,7 +227,8 @@ def gen_map(rng, size: str = 'normal', strata: bool = True) -> Tuple[Any, Dict[s
     vis_ids: List[int] = []
 
     def mk_vis(depth: int):
-        vg = VisGroup(vmf, hostile(rng, 10, p=0.4), color=color(rng))
+        # desired IDs that collide in a small hash table (3, 11, 19 ...) make set iteration order history-dependent
+        vg = VisGroup(vmf, hostile(rng, 10, p=0.4), rng.choice((-1, -1, 3, 11, 19, 27, 8, 16)), color=color(rng))
         vis_ids.append(vg.id)
         if depth < 2:
             for _ in range(rng.choice((0, 0, 1, 2))):
@@ -238,7 +239,7 @@ def gen_map(rng, size: str = 'normal', strata: bool = True) -> Tuple[Any, Dict[s
         features['visgroup'] = features.get('visgroup', 0) + 1
     group_ids: List[int] = []
     for _ in range(rng.choice((0, 0, 1, 3))):
-        grp = EntityGroup(vmf, shown=rng.random() < 0.7, auto_shown=rng.random() < 0.7, color=color(rng))
+        grp = EntityGroup(vmf, rng.choice((-1, -1, 5, 13, 21, 8, 16)), shown=rng.random() < 0.7, auto_shown=rng.random() < 0.7, color=color(rng))
         vmf.groups[grp.id] = grp
         group_ids.append(grp.id)
         features['group'] = features.get('group', 0) + 1
